@@ -261,6 +261,12 @@ def par_map(fn, items, workers=None):
 
 
 # ------------------------------------------------------------------------------ streams
+def _big_stack():
+    import resource
+    _soft, hard = resource.getrlimit(resource.RLIMIT_STACK)
+    resource.setrlimit(resource.RLIMIT_STACK, (hard, hard))
+
+
 def run_lines(binary, stream, lines, shards=None, timeout=1200, extra_env=None):
     """feed `lines` to `binary stream` (sharded over processes), return output lines in order"""
     if not lines:
@@ -277,8 +283,10 @@ def run_lines(binary, stream, lines, shards=None, timeout=1200, extra_env=None):
         chunk = lines[i * per:(i + 1) * per]
         if not chunk:
             continue
+        # the extracted model is structural recursion over the input as a list (not tail recursive): give it the whole stack
+        # the system allows; the implementation under test keeps its default stack
         p = subprocess.Popen([binary, stream], stdin=subprocess.PIPE, stdout=subprocess.PIPE,
-                             stderr=subprocess.PIPE, env=env)
+                             stderr=subprocess.PIPE, env=env, preexec_fn=(_big_stack if binary == FPMODEL else None))
         procs.append((p, chunk))
     # write inputs from threads to avoid pipe deadlocks
     import threading
